@@ -93,7 +93,7 @@ package cache
 //@   ensures [zero] hc.status == StatusUnknown && hc.expiredAt == 0 && hc.createdAt == 0 && hc.response == nil && len(hc.chanList) == 0
 //@   ensures [wired] hc.store == store && hc.key == key
 
-//@ func (hc *httpCache) get() (status Status, done chan struct{}, data *HTTPResponse)
+//@ func (hc *httpCache) get() (status Status, done chan struct{}, data *HTTPResponse, age int)
 //@   requires [recv] hc != nil && hc.mu != nil
 //@   requires [locked] held(hc.mu)
 //@   requires [inv] inv(hc)
@@ -122,8 +122,29 @@ package cache
 //@                       ==> status == StatusFetching && done == nil
 //@   ensures [queue]   old(hc.status) == StatusFetching ==> done != nil
 //@   ensures [clock]   $clock >= old($clock)
+// the age handed out with a hit is computed from the clock reading of the expiry check itself
+//@   ensures [age]     status == StatusHit ==> age == wrap64($clock - hc.createdAt)
+//@   ensures [age-bound] status == StatusHit && 0 <= hc.createdAt ==> age == $clock - hc.createdAt && age <= hc.expiredAt - hc.createdAt
+//@   ensures [age-zero] status != StatusHit ==> age == 0
 
+// Get is GetWithAge without the age
 //@ func (hc *httpCache) Get() (status Status, response *HTTPResponse)
+//@   requires [recv] hc != nil && hc.mu != nil
+//@   requires [unlocked] !anyheld(hc.mu)
+//@   requires [tok] $tok[hc] == 0
+//@   nopanic
+//@   modifies hc.status, hc.chanList, hc.response, hc.createdAt, hc.expiredAt, $tok[hc], $clock, $regs, $recv, $recv_total, $owed, $expbase[hc], cells(chan struct{})
+//@   ensures [recv]    $regs - old($regs) == $recv_total - old($recv_total)
+//@   ensures [owed]    $owed == old($owed)
+//@   ensures [domain]  status == StatusFetching || status == StatusHitForPass || status == StatusHit
+//@   ensures [token]   status == StatusFetching ==> $tok[hc] == 1
+//@   ensures [notoken] status != StatusFetching ==> $tok[hc] == 0
+//@   ensures [hit]     status == StatusHit ==> response != nil
+//@   ensures [nohit]   status != StatusHit ==> response == nil
+//@   ensures [clock]   $clock >= old($clock)
+//@   ensures [locks]   $held == old($held)
+
+//@ func (hc *httpCache) GetWithAge() (status Status, response *HTTPResponse, age int)
 //@   requires [recv] hc != nil && hc.mu != nil
 //@   requires [unlocked] !anyheld(hc.mu)
 //@   requires [tok] $tok[hc] == 0
@@ -139,6 +160,10 @@ package cache
 //@   loop 0: invariant [owed]  $owed == old($owed)
 //@   loop 0: invariant [fresh] (done == nil && status == StatusHit) ==> $clock <= at(lastunlock, hc.expiredAt) && response == at(lastunlock, hc.response)
 //@   ensures_local [fresh-hit] status == StatusHit ==> $clock <= at(lastunlock, hc.expiredAt) && response == at(lastunlock, hc.response)
+//@   loop 0: invariant [age]   (done == nil && status == StatusHit) ==> age == wrap64($clock - at(lastunlock, hc.createdAt))
+//@                              && (0 <= at(lastunlock, hc.createdAt) ==> age <= at(lastunlock, hc.expiredAt) - at(lastunlock, hc.createdAt))
+//@   ensures_local [age-at-lookup] status == StatusHit ==> age == wrap64($clock - at(lastunlock, hc.createdAt))
+//@   ensures_local [age-within-lifetime] status == StatusHit && 0 <= at(lastunlock, hc.createdAt) ==> age <= at(lastunlock, hc.expiredAt) - at(lastunlock, hc.createdAt)
 //@   loop 0: invariant [wait]  $regs - old($regs) == $recv_total - old($recv_total) + ((done != nil) ? 1 : 0)
 //@   ensures [recv]    $regs - old($regs) == $recv_total - old($recv_total)
 //@   ensures [owed]    $owed == old($owed)
